@@ -572,6 +572,7 @@ impl Crate {
                 entry.insert("sites".into(), Json::A(fx.sites.iter().map(|s| s.json()).collect()));
                 entry.insert("calls".into(), Json::A(fx.calls.iter().map(|s| Json::S(s.clone())).collect()));
                 entry.insert("auto_helpers".into(), Json::A(fx.auto_helpers.iter().map(|s| Json::S(s.clone())).collect()));
+                entry.insert("inlined_helpers".into(), Json::A(fx.inlined.iter().map(|s| Json::S(s.clone())).collect()));
                 let mut text = text?;
                 // trait instances
                 let inst = match *tr {
@@ -611,7 +612,18 @@ impl Crate {
                     return Err(format!("expected exactly one `impl {} for {}` with `{}`, found {}", tr, ty, name, fs.len()));
                 }
                 let defined = self.impl_fns.get(&(ty.to_string(), tr.to_string())).cloned().unwrap_or_default();
-                if !tr.is_empty() && defined.len() != 1 {
+                // the impl defines exactly the functions that are held to a canonical body
+                let mut expected: Vec<String> = config::ITEMS
+                    .iter()
+                    .filter_map(|i| match i {
+                        CItem::CanonicalBody { ty: t2, tr: tr2, name: n2, .. } if t2 == ty && tr2 == tr => Some(n2.to_string()),
+                        _ => None,
+                    })
+                    .collect();
+                expected.sort();
+                let mut def_sorted = defined.clone();
+                def_sorted.sort();
+                if !tr.is_empty() && def_sorted != expected {
                     return Err(format!("impl {} for {} defines {}", tr, ty, defined.join(", ")));
                 }
                 let got = fs[0].block.to_token_stream().to_string().replace(' ', "");
@@ -664,6 +676,7 @@ impl Crate {
                 entry.insert("sites".into(), Json::A(fx.sites.iter().map(|s| s.json()).collect()));
                 entry.insert("calls".into(), Json::A(fx.calls.iter().map(|s| Json::S(s.clone())).collect()));
                 entry.insert("auto_helpers".into(), Json::A(fx.auto_helpers.iter().map(|s| Json::S(s.clone())).collect()));
+                entry.insert("inlined_helpers".into(), Json::A(fx.inlined.iter().map(|s| Json::S(s.clone())).collect()));
                 text
             }
             CItem::Closure { func, idx, lean, captures, params, ret } => {
@@ -688,6 +701,7 @@ impl Crate {
                 entry.insert("sites".into(), Json::A(fx.sites.iter().map(|s| s.json()).collect()));
                 entry.insert("calls".into(), Json::A(fx.calls.iter().map(|s| Json::S(s.clone())).collect()));
                 entry.insert("auto_helpers".into(), Json::A(fx.auto_helpers.iter().map(|s| Json::S(s.clone())).collect()));
+                entry.insert("inlined_helpers".into(), Json::A(fx.inlined.iter().map(|s| Json::S(s.clone())).collect()));
                 text
             }
         }
@@ -705,18 +719,26 @@ impl Crate {
                 return Err(format!("expected exactly one function `{}`, found {}", qual, fs.len()));
             }
             let f = fs[0];
+            let is_parser = f.ty.is_none() && parser_output(&f.sig).is_some();
             let lname = match &f.ty {
                 Some(t) => format!("{}.rs_{}", lean_type_name(t).ok_or("unmapped type")?, f.sig.ident),
+                None if is_parser => format!("Semver.Gen.{}", qual.replace("::", "_")),
                 None => format!("Semver.Gen.auto_{}", f.sig.ident),
             };
             entry.insert("lean".into(), Json::S(lname.clone()));
             entry.insert("file".into(), Json::S(f.file.clone()));
             entry.insert("line".into(), Json::N(f.line as i64));
             let mut fx = Fx::new(self, f.ty.clone());
-            let text = fx.function(f, &lname, "");
+            let text = if is_parser {
+                fx.register_closures(f);
+                fx.parser_fn(f, &lname)
+            } else {
+                fx.function(f, &lname, "")
+            };
             entry.insert("sites".into(), Json::A(fx.sites.iter().map(|s| s.json()).collect()));
             entry.insert("calls".into(), Json::A(fx.calls.iter().map(|s| Json::S(s.clone())).collect()));
             entry.insert("auto_helpers".into(), Json::A(fx.auto_helpers.iter().map(|s| Json::S(s.clone())).collect()));
+                entry.insert("inlined_helpers".into(), Json::A(fx.inlined.iter().map(|s| Json::S(s.clone())).collect()));
             let text = text?;
             Ok(text.replacen("\ndef ", "\n@[simp] def ", 1))
         })();
